@@ -21,7 +21,7 @@ def check_program(src):
     """-> list of (config, problem)"""
     es5, unparsers, asttypes = _M['es5'], _M['unparsers'], _M['asttypes']
     try:
-        tree = es5.Parser().parse(src)
+        tree = es5.parse(src)                # the public entry point, many times in a row in this process
     except Exception:
         return None
     out = []
@@ -33,7 +33,7 @@ def check_program(src):
             out.append((cfg, 'PRINT-RAISED minify_print raised %r' % (e,), None, 'PRINT-RAISED'))
             continue
         try:
-            t2 = es5.Parser().parse(text)
+            t2 = es5.parse(text)
         except Exception as e:
             out.append((cfg, 'REJECTED %r minifies to %r which does not parse: %s' % (src, text, str(e)[:80]), text, diagnose(tree, drop)))
             continue
@@ -159,6 +159,34 @@ def main(run, tier):
     printobl.print_obligations(run, g, ('minify', 'minify+drop_semi'), commented=True)
     from . import sepobl
     sepobl.sep_obligations(run, g, ('minify', 'minify+drop_semi'))
+    from . import parsefwd
+    parsefwd.add(run, tier)
+    # ---- the pattern the minifier strips line continuations with = the ES5 LineContinuation, on all short escape soups
+    import itertools
+    import re as _re
+    from spec import es5_lexical
+    lexmod = importlib.import_module('calmjs.parse.lexers.es5')
+    patt = lexmod.PATT_LINE_CONTINUATION
+    alpha = ['\\', '\n', '\r', '\u2028', 'a']
+    bad_lc = None
+    n_lc = 0
+    for L in range(0, 7):
+        for t in itertools.product(alpha, repeat=L):
+            body = ''.join(t)
+            # only bodies that can be inside a string literal: no raw line terminator unless it follows an unescaped backslash
+            stripped = es5_lexical.strip_line_continuations(body)
+            if any(c in stripped.replace('\\\\', '') for c in '\n\r\u2028') or stripped.replace('\\\\', '').endswith('\\'):
+                continue
+            n_lc += 1
+            if patt.sub('', body) != stripped and (bad_lc is None or len(body) < len(bad_lc)):
+                bad_lc = body
+    if bad_lc is None:
+        run.discharged('lex.line_continuation_pattern', 'E3/charclass', 'exhaustive', 0.0, detail='%d string bodies of length <= 6 over %r' % (n_lc, alpha))
+    else:
+        why = 'PATT_LINE_CONTINUATION turns the string body %r into %r; removing the LineContinuations gives %r' % (
+            bad_lc, patt.sub('', bad_lc), es5_lexical.strip_line_continuations(bad_lc))
+        run.failed('lex.line_continuation_pattern', 'E3/charclass', bad_lc, dict(body=bad_lc), observed=why,
+                   required='only backslash + LineTerminatorSequence is removed (7.8.4); every other character of the literal stays', replayed=True)
     # ---- E2 (depth 2): which statement terminators survive drop_semi, per statement production x context
     from . import semiobl
     from ..tables import printing as _printing
